@@ -61,6 +61,7 @@ PROBES = ["switch_inside_mkdir_window", "crash_between_wrapper_cpp_writes", "tor
           "crash_in_open_write_window", "second_run_over_existing_outputs",
           "mkdir_race_lost_after_isdir_false", "xml_store_changed_between_calls", "hashseed_varied_build",
           "hashseed_build_with_2plus_submodules", "inputs_named_relative_to_cwd"]
+# (debris_of_killed_incarnation is counted when it happens; the unchanged tree never leaves any)
 
 
 def batches(tier):
@@ -402,6 +403,7 @@ class BuildObserver:
             self.targets[s["name"]] = set(so["files"]) | set(so["dirs"])
         self.inputs = set(sc["inputs"])
         self.preexisting = set()        # filled by run_build with everything on the file system at start
+        self.touched = {}               # path -> {(task, incarnation)} that created or modified it
         self.completed = {}
         self.state_fps = set()
         self.pyprefixes = tuple({sys.prefix, sys.base_prefix, "/usr/lib/python3", "/usr/lib/python"})
@@ -484,6 +486,9 @@ class BuildObserver:
 def mutation_hook_factory(obs):
     def hook(w, inc, path):
         tname = inc.task.name if inc else "-"
+        if inc is not None:
+            # who created / last touched each path (to recognise the debris of a killed process)
+            obs.touched.setdefault(path, set()).add((tname, inc.no))
         for other, tg in obs.targets.items():
             if other != tname and path in tg and path not in obs.targets.get(tname, ()):
                 obs.add("I3", "I3:foreign-damage", "task %s modified %s which belongs to task %s" %
@@ -606,6 +611,15 @@ def run_build(tape, ctx):
             diffs.append((p, kind))
     for d in sorted(exp_dirs ^ w.dirs):
         diffs.append((d, "dir-missing" if d in exp_dirs else "dir-extra"))
+    # debris of a killed process: a NEW file that only crashed incarnations ever touched (e.g. the
+    # uniquely named temporary of an interrupted atomic write) is what a kill leaves behind in reality
+    # too; it is not an output of the run that completed.  Counted, not judged.
+    final_inc = {t.name: t.incarnations for t in tasks}
+    debris = [p for p, k in diffs if k == "extra" and p not in obs.preexisting and obs.touched.get(p) and
+              all(no < final_inc.get(tn, 0) for tn, no in obs.touched[p])]
+    if debris:
+        w.probe("debris_of_killed_incarnation", len(debris))
+        diffs = [(p, k) for p, k in diffs if p not in debris]
     failed = [(t.name, t.state, t.error) for t in tasks if t.state != "done"]
     # I5: every task completes once faults stop
     for t, so in zip(tasks, solos):
